@@ -673,3 +673,147 @@ def cell_kernel_def(relpath, qualname, lean_name, doc):
     bodytxt = "\n".join("  " + ln for ln in lines + [ret])
     return (f"/-- {doc} -/\ndef {lean_name} {{α : Type}} [OfNat α 0] (frame : Int → Int → α) "
             f"(fy fx crop_size peak0 peak1 y x : Int) : α :=\n{bodytxt}\n")
+
+
+# ----------------------------------------------------------------------------------------------------------------
+# the slicing crop back-end:  out[i] = 0 ; out[i, ty, tx] = frame[sy, sx]   with computed slice bounds
+# ----------------------------------------------------------------------------------------------------------------
+
+def _helper_expr(fndef):
+    """body of a small helper as one expression: `return e`, or `if c: return a` followed by `return b`
+    (also with else) -> conditional expression"""
+    body = stmts_of(fndef)
+    if len(body) == 1 and isinstance(body[0], ast.Return):
+        return body[0].value
+    if len(body) == 2 and isinstance(body[0], ast.If) and len(body[0].body) == 1 and isinstance(body[0].body[0], ast.Return) \
+            and not body[0].orelse and isinstance(body[1], ast.Return):
+        return ast.IfExp(test=body[0].test, body=body[0].body[0].value, orelse=body[1].value)
+    if len(body) == 1 and isinstance(body[0], ast.If) and len(body[0].body) == 1 and len(body[0].orelse) == 1 \
+            and isinstance(body[0].body[0], ast.Return) and isinstance(body[0].orelse[0], ast.Return):
+        return ast.IfExp(test=body[0].test, body=body[0].body[0].value, orelse=body[0].orelse[0].value)
+    raise Untranslatable(f"helper {fndef.name} is not a single (conditional) return")
+
+
+def slice_kernel_def(relpath, qualname):
+    from trcore import tr_block, OPTINT
+    fn = find_def(relpath, qualname)
+    args = [a.arg for a in fn.args.args]
+    if len(args) != 4:
+        raise Untranslatable(f"{qualname}: arguments {args}")
+    peaks_n, frame_n, crop_n, out_n = args
+    helpers = {}
+    body = []
+    for s in stmts_of(fn):
+        if isinstance(s, ast.FunctionDef):
+            helpers[s.name] = ([a.arg for a in s.args.args], _helper_expr(s))
+        else:
+            body.append(s)
+    # module-level helpers called from the body
+    mod = tree_of(relpath)
+    for node in ast.walk(ast.Module(body=body, type_ignores=[])):
+        if isinstance(node, ast.Call) and isinstance(node.func, ast.Name) and node.func.id not in helpers \
+                and node.func.id not in ("max", "min", "abs", "int", "range", "len"):
+            for top in mod.body:
+                if isinstance(top, ast.FunctionDef) and top.name == node.func.id:
+                    helpers[top.name] = ([a.arg for a in top.args.args], _helper_expr(top))
+    inl = _Inline(helpers)
+    env = Env(vars={crop_n: ("crop_size", INT)})
+    for nme in ("fy", "fx", "crop_size", "peak0", "peak1", "h", "w"):
+        env.counter[nme] = 1
+    env.subst[f"{out_n}.shape[1]"] = ("h", INT)
+    env.subst[f"{out_n}.shape[2]"] = ("w", INT)
+    env.subst[f"{frame_n}.shape[0]"] = ("fy", INT)
+    env.subst[f"{frame_n}.shape[1]"] = ("fx", INT)
+    *pro, loop = body
+    for s in pro:
+        if isinstance(s, ast.Assign) and len(s.targets) == 1 and isinstance(s.targets[0], ast.Tuple) \
+                and ast.unparse(s.value) == f"{frame_n}.shape" and len(s.targets[0].elts) == 2:
+            env.vars[s.targets[0].elts[0].id] = ("fy", INT)
+            env.vars[s.targets[0].elts[1].id] = ("fx", INT)
+        elif isinstance(s, ast.Assign) and "sparseconverter" in ast.unparse(s.value):
+            continue   # choice of the array back-end: not part of the slice arithmetic
+        else:
+            raise Untranslatable(f"{qualname}: statement before the loop: {ast.unparse(s)[:50]}")
+    if not (isinstance(loop, ast.For) and isinstance(loop.target, ast.Name)
+            and ast.unparse(loop.iter) == f"range(len({peaks_n}))"):
+        raise Untranslatable(f"{qualname}: loop over the peaks")
+    i = loop.target.id
+    env.subst[f"{peaks_n}[{i}][0]"] = ("peak0", INT)
+    env.subst[f"{peaks_n}[{i}][1]"] = ("peak1", INT)
+    lines = []
+    zero_fill = False
+    store = None
+    sources = {}
+    for s in loop.body:
+        src = ast.unparse(s)
+        if isinstance(s, ast.Assign) and len(s.targets) == 1 and isinstance(s.targets[0], ast.Name) \
+                and ast.unparse(s.value) == f"{peaks_n}[{i}]":
+            env.subst[f"{s.targets[0].id}[0]"] = ("peak0", INT)
+            env.subst[f"{s.targets[0].id}[1]"] = ("peak1", INT)
+            continue
+        if src == f"{out_n}[{i}] = 0":
+            if store is None:
+                zero_fill = True
+            continue
+        if isinstance(s, ast.Assign) and isinstance(s.targets[0], ast.Subscript):
+            if store is not None:
+                raise Untranslatable("more than one buffer store in the slicing crop")
+            store = s
+            continue
+        if store is not None:
+            raise Untranslatable("statements after the buffer store")
+        if isinstance(s, ast.Assign) and len(s.targets) == 1 and isinstance(s.targets[0], ast.Name) \
+                and isinstance(s.value, ast.Subscript) and ast.unparse(s.value.value) == frame_n:
+            sources[s.targets[0].id] = s.value      # `source = frame[a:b, c:d]`
+            continue
+        s2 = inl.visit(_copy_stmt(s))
+        ls, r = tr_block([s2], env)
+        if r is not None:
+            raise Untranslatable("return in the slicing crop")
+        lines += ls
+    if store is None:
+        raise Missing("buffer store of the slicing crop")
+    tgt = store.targets[0]
+    if ast.unparse(tgt.value) != out_n or not isinstance(tgt.slice, ast.Tuple) or len(tgt.slice.elts) != 3 \
+            or ast.unparse(tgt.slice.elts[0]) != i:
+        raise Untranslatable("target of the slicing crop store")
+    val = store.value
+    if isinstance(val, ast.Call) and ast.unparse(val.func) == "sparseconverter.for_backend":
+        val = val.args[0]
+    if isinstance(val, ast.Name) and val.id in sources:
+        val = sources[val.id]
+    if not (isinstance(val, ast.Subscript) and ast.unparse(val.value) == frame_n and isinstance(val.slice, ast.Tuple)
+            and len(val.slice.elts) == 2):
+        raise Untranslatable("source of the slicing crop store")
+
+    def bound(e):
+        if e is None:
+            return "(none : Option Int)"
+        txt, t = tr(inl.visit(_copy(e)), env)
+        return coerce(txt, t, OPTINT)
+    fields = []
+    for label, sl in (("t_y", tgt.slice.elts[1]), ("t_x", tgt.slice.elts[2]), ("s_y", val.slice.elts[0]), ("s_x", val.slice.elts[1])):
+        if not isinstance(sl, ast.Slice) or sl.step is not None:
+            raise Untranslatable(f"{label} is not a plain slice")
+        fields.append(f"{label}_lo := {bound(sl.lower)}")
+        fields.append(f"{label}_hi := {bound(sl.upper)}")
+    ret = "{ " + ", ".join(fields) + " }"
+    bodytxt = "\n".join("  " + ln for ln in lines + [ret])
+    return (
+        "/-- bounds of the slice assignment `out_crop_bufs[i, t_y, t_x] = frame[s_y, s_x]` of\n"
+        "`crop_disks_from_frame_slicing` (`none` = omitted bound / Python `None`) -/\n"
+        "structure SliceBounds where\n  t_y_lo : Option Int\n  t_y_hi : Option Int\n"
+        "  t_x_lo : Option Int\n  t_x_hi : Option Int\n  s_y_lo : Option Int\n  s_y_hi : Option Int\n"
+        "  s_x_lo : Option Int\n  s_x_hi : Option Int\n\n"
+        "def sl_bounds (fy fx crop_size peak0 peak1 h w : Int) : SliceBounds :=\n" + bodytxt + "\n\n"
+        "/-- does `out_crop_bufs[i] = 0` precede the slice store in the loop body? -/\n"
+        f"def sl_zero_fill : Bool := {'true' if zero_fill else 'false'}\n")
+
+
+def _copy_stmt(s):
+    return ast.parse(ast.unparse(s)).body[0]
+
+
+def tree_of(relpath):
+    from trcore import tree
+    return tree(relpath)
